@@ -344,12 +344,27 @@ def _label_owner(ctx) -> list[Inst]:
     put the constant True."""
     out = []
     props = ('C08',)
-    for f in ctx.prog.all_funcs():
+    funcs = [f for f in ctx.prog.all_funcs() if not f.module.generated]
+    callers = {}
+    for g in funcs:
+        try:
+            for h in ctx.an.callees(g):
+                callers.setdefault(h.qname, set()).add(g.qname)
+        except Exception:
+            pass
+    ok_q = {f.qname for f in funcs if f.module.relpath in LABEL_WRITERS_MODULES or f.short in LABEL_WRITERS or
+            (f.cls is not None and f.cls.name == 'AttackGraphNode')}
+    # helpers that only the allowed writers call (the reader split into pieces) are writers of the same kind
+    changed = True
+    while changed:
+        changed = False
+        for f in funcs:
+            if f.qname not in ok_q and callers.get(f.qname) and callers[f.qname] <= ok_q:
+                ok_q.add(f.qname)
+                changed = True
+    for f in funcs:
         rel = f.module.relpath
-        if f.module.generated:
-            continue
-        allowed = rel in LABEL_WRITERS_MODULES or f.short in LABEL_WRITERS or \
-            (f.cls is not None and f.cls.name == 'AttackGraphNode')
+        allowed = f.qname in ok_q
         stores = []      # (node, label, value or None)
         for n in own_nodes(f.node):
             if isinstance(n, ast.Assign):
@@ -444,10 +459,54 @@ def _closure_pass(ctx) -> list[Inst]:
     return out
 
 
+def _member_direction(ctx) -> list[Inst]:
+    """DIRECTION  members are inherited downwards: what a type HAS (attack steps, variables) is found on the type
+    itself (already flattened) or on its super types - never on its sub types.  A search that walks
+    `X.get_all_subassets()` / `X.sub_assets` and reads the elements' attack_steps / variables to resolve a reference
+    on X links it to a member X does not have."""
+    out = []
+    MEMBERS = {'attack_steps', 'variables'}
+    for f in ctx.prog.all_funcs():
+        if f.module.generated:
+            continue
+        rel = f.module.relpath
+        gens = []       # (target name, iter expr, scope node)
+        for n in own_nodes(f.node):
+            if isinstance(n, ast.For) and isinstance(n.target, ast.Name):
+                gens.append((n.target.id, n.iter, n))
+            elif isinstance(n, (ast.ListComp, ast.SetComp, ast.GeneratorExp, ast.DictComp)):
+                for g in n.generators:
+                    if isinstance(g.target, ast.Name):
+                        gens.append((g.target.id, g.iter, n))
+        for (v, it, scope) in gens:
+            down = (isinstance(it, ast.Call) and isinstance(it.func, ast.Attribute) and it.func.attr == 'get_all_subassets') \
+                or (isinstance(it, ast.Attribute) and it.attr == 'sub_assets')
+            if not down:
+                continue
+            reads = [a for a in ast.walk(scope) if isinstance(a, ast.Attribute) and a.attr in MEMBERS
+                     and isinstance(a.value, ast.Name) and a.value.id == v and isinstance(a.ctx, ast.Load)]
+            # pushing something DOWN (a store into the sub type's members) is the legitimate direction
+            stores = [c for c in ast.walk(scope) if isinstance(c, ast.Call) and isinstance(c.func, ast.Attribute)
+                      and c.func.attr in ('append', 'extend', 'add', 'update') and isinstance(c.func.value, ast.Attribute)
+                      and c.func.value.attr in MEMBERS and isinstance(c.func.value.value, ast.Name) and c.func.value.value.id == v]
+            if not reads or stores:
+                continue
+            construct = f"DIRECTION: members looked up on '{stmt_text(it, 40)}'"
+            props = tuple(dict.fromkeys(tuple(props_for(f.short, rel) or ()) + ('C15',)))
+            out.append(Inst(
+                RULE, f.short, construct, 'violation',
+                msg=(f"'{stmt_text(reads[0])}' is searched over '{stmt_text(it, 50)}': a type has its own and its super "
+                     f"types' members, not those of its sub types - a reference to a member the type lacks is resolved "
+                     f"to a same-named member of a descendant instead of being rejected"),
+                file=rel, line=reads[0].lineno, props=props))
+    return out
+
+
 def run(ctx) -> list[Inst]:
     prog = ctx.prog
     insts = _closure_functions(ctx)
     insts += _closure_pass(ctx)
+    insts += _member_direction(ctx)
     insts += _build_order(ctx)
     insts += _own_default(ctx)
     insts += _label_owner(ctx)
